@@ -3127,3 +3127,85 @@ def gen_pydhook(lib_dir: str, header: str) -> str:
             "    type, `declared` = the scalar types it declares (`_resolve_numpy_dtype`), `hasDtypes` / `member` = the class's `DTYPES` -/\n")
     out += "def schemaHook (numpyAvailable isNdarray hasDtypes : Bool) (member : DT → Bool) (declared : List DT) : SchemaOutcome :=\n  " + body + "\n\nend Dltype.Gen\n"
     return out
+
+
+# =====================================================================================================================
+# decoration-time parts of dltyped_namedtuple / dltyped_dataclass  ->  Generated/ClassDecor.lean
+# =====================================================================================================================
+
+NT_ATOMS = {"enabled": "enabled", "isinstance(cls, type) and hasattr(cls, '_fields') and issubclass(cls, tuple)": "isNamedTuple", "dltype_fields": "(!fields'.isEmpty)"}
+NT_PINNED = ["field_hints = get_type_hints(cls, include_extras=True)", "dltype_fields: dict[str, tuple[DLTypeAnnotation | None, ...]] = {}", "original_new = cls.__new__",
+             "namespace = {'__new__': validated_new, '__module__': cls.__module__, '__qualname__': cls.__qualname__}"]
+NT_LOOP = "for field_name in cls._fields:\n    if field_name in field_hints:\n        hint = field_hints[field_name]\n        dltype_fields[field_name] = DLTypeAnnotation.from_hint(hint, field_name)"
+NT_RETURN = "return cast('type[NT]', type(cls.__name__, (cls,), namespace))"
+DC_ATOMS = {"enabled": "enabled", "_dependency_utilities.is_torch_scripting()": "scripting", "hasattr(cls, '__dataclass_fields__')": "isDataclass"}
+DC_PINNED = ["original_init = cls.__init__", "field_hints = get_type_hints(cls, include_extras=True)", "cls.__init__ = new_init"]
+DC_HINTS = "dltype_hints = {name: DLTypeAnnotation.from_hint(hint, name) for name, hint in field_hints.items()}"
+
+
+def gen_classdecor(lib_dir: str, header: str) -> str:
+    with open(os.path.join(lib_dir, "_core.py")) as fh:
+        mod = ast.parse(fh.read(), filename="_core.py")
+
+    def compile_one(outer, inner, atoms, pinned, hints_src, inner_def, final_src, final_term):
+        f = _inner_function(mod, outer, inner)
+
+        def cond(e) -> str:
+            t = atoms.get(_src(e))
+            if t is not None:
+                return t
+            if isinstance(e, ast.BoolOp):
+                return "(" + (" && " if isinstance(e.op, ast.And) else " || ").join(cond(v) for v in e.values) + ")"
+            if isinstance(e, ast.UnaryOp) and isinstance(e.op, ast.Not):
+                return f"(!{cond(e.operand)})"
+            raise TErr(f"{inner}: condition `{_src(e)[:100]}`")
+
+        lines, have_hints, done = [], False, False
+        for s in _strip(f.body):
+            src = _src(s)
+            if done:
+                raise TErr(f"{inner}: statement after the final return: `{src[:80]}`")
+            if isinstance(s, ast.If) and not s.orelse:
+                body = [x for x in s.body if not (isinstance(x, ast.Assign) and isinstance(x.value, (ast.Constant, ast.JoinedStr)))]
+                c = cond(s.test)
+                if "fields'" in c and not have_hints:
+                    raise TErr(f"{inner}: the field table is tested before it is built")
+                if len(body) == 1 and isinstance(body[0], ast.Return) and _src(body[0].value) == "cls":
+                    lines.append(f"if {c} then .identity else")
+                    continue
+                if len(body) == 1 and isinstance(body[0], ast.Raise) and _src(body[0].exc).startswith("TypeError"):
+                    lines.append(f"if {c} then .error .typeError else")
+                    continue
+                raise TErr(f"{inner}: branch `{src[:120]}`")
+            if src in pinned:
+                continue
+            if src == hints_src:
+                lines.append("match hintsOf fields with\n  | .error e => .error e\n  | .ok fields' =>")
+                have_hints = True
+                continue
+            if isinstance(s, ast.FunctionDef) and s.name == inner_def:
+                continue
+            if src == final_src:
+                if not have_hints:
+                    raise TErr(f"{inner}: returns before the hints are translated")
+                lines.append(final_term)
+                done = True
+                continue
+            raise TErr(f"{inner}: statement `{src[:140]}`")
+        if not done:
+            raise TErr(f"{inner}: no final return")
+        return "".join("  " + l + "\n" for l in lines)
+
+    nt = compile_one("dltyped_namedtuple", "_inner_dltyped_namedtuple", NT_ATOMS, NT_PINNED, NT_LOOP, "validated_new", NT_RETURN, ".wrapped fields'")
+    dc = compile_one("dltyped_dataclass", "_inner_dltyped_dataclass", DC_ATOMS, DC_PINNED, DC_HINTS, "new_init", "return cls", ".wrapped fields'")
+    out = header
+    out += "import DltypeModel.Entry\nset_option linter.unusedVariables false\nnamespace Dltype.Gen\nopen Dltype\n\n"
+    out += ("/-- what a class decorator hands back: the class itself untouched, a validating class over the translated field hints, or an error -/\n"
+            "inductive ClassDecorated\n  | identity\n  | wrapped (fields : List (Name × HintAnns))\n  | error (e : DecorErr)\n  deriving Repr\n\n")
+    out += ("/-- `_inner_dltyped_namedtuple` up to the definition of the validating `__new__`: `fields` = the NamedTuple's fields that have a\n"
+            "    hint, in `cls._fields` order, each translated by `from_hint(hint, field_name)` (no `optional=` argument) -/\n")
+    out += "def ntDecorate (enabled isNamedTuple : Bool) (fields : List (Name × Hint)) : ClassDecorated :=\n" + nt + "\n"
+    out += ("/-- `_inner_dltyped_dataclass` up to the definition of the validating `__init__`: `fields` = every hinted name of the class (base\n"
+            "    classes first: `typing.get_type_hints`) -/\n")
+    out += "def dcDecorate (scripting enabled isDataclass : Bool) (fields : List (Name × Hint)) : ClassDecorated :=\n" + dc + "\nend Dltype.Gen\n"
+    return out
